@@ -55,19 +55,47 @@ def run(ck):
         ck.note("verify_aggregate_sig_hybrid has neither a duplicate nor an emptiness check (documented precondition); observation, not a violation")
     f = getfn(ck, "rs", CB, A + "has_duplicates")
     if f:
+        c0 = crate("rs", CB)
+        # accepted idioms for a COMPLETE duplicate search: sort the hashes of all messages, then compare every adjacent pair
+        # (index loop, or windows(2) over the whole sorted slice); the sorted vector must not be cut into independently
+        # scanned pieces (pairs that straddle a cut would never be compared)
+        SORT = r"(par_)?sort(_unstable)?(_by|_by_key)?$"
+        PART = r"::(par_)?r?chunks(_exact|_mut|_exact_mut)?$|::split_at(_mut)?$|Iterator::(step_by|take|skip|take_while|skip_while)$|::truncate$|::par_chunk_by$|::chunk_by$"
+        srt = f.calls(SORT)
+        part = f.calls(PART)
+        ck.ob("COV", f.path, "scan-not-partitioned", not part,
+              "the sorted hashes are scanned as one sequence" if not part else
+              "the sorted hashes are cut into pieces (%s) that are scanned independently: equal neighbours on both sides of a cut are never compared" % [t["f"]["name"] for (_, t) in part], f.loc())
         comps = [c for c in rules.comparisons(f) if c["op"] == "Eq" and c["kind"] == "call"]
-        ck.ob("RET", f.path, "adjacent-eq", len(comps) == 1, "%d equality comparisons of adjacent hashes" % len(comps), f.loc())
-        ok = False
-        for c in comps:
-            # true branch assigns _0 = true
-            for (sb, st) in f.switches():
-                p = op_place(st["d"])
-                if p and p[0] == c["res"]:
-                    tt = st["o"]
-                    ok = any("lhs" in s and s["lhs"] == [0, []] and const_int(op_const(s["rv"].get("a", {}))) == 1 for s in f.stmts(tt) if s.get("rv", {}).get("k") == "use" and op_const(s["rv"]["a"]))
-        ck.ob("RET", f.path, "eq-returns-true", ok, "equal neighbours make the function return true", f.loc())
-        srt = f.calls(r"sort_unstable$|sort$")
-        ck.ob("DOM", f.path, "sorted-before-scan", len(srt) == 1 and all(f.dominates(srt[0][0], c["bb"]) for c in comps), "hashes are sorted before neighbours are compared", f.loc())
+        win = [(bi, t) for (bi, t) in f.calls(r"::(par_)?windows$") if any(op_const(a) is not None and const_int(op_const(a)) == 2 for a in t["args"])]
+        idiom, ok = None, False
+        if comps:
+            idiom = "index loop"
+            for c in comps:
+                for (sb, st) in f.switches():
+                    p = op_place(st["d"])
+                    if p and p[0] == c["res"]:
+                        tt = st["o"]
+                        ok = ok or any("lhs" in s2 and s2["lhs"] == [0, []] and const_int(op_const(s2["rv"].get("a", {}))) == 1 for s2 in f.stmts(tt) if s2.get("rv", {}).get("k") == "use" and op_const(s2["rv"]["a"]))
+            ok = ok and len(comps) == 1 and bool(srt) and all(f.dominates(srt[0][0], c["bb"]) for c in comps)
+        elif win:
+            idiom = "windows(2)"
+            anyc = f.calls(r"Iterator::any$|ParallelIterator::any$")
+            ret_any = has_call_origin(f.origins(0, deep=True), r"Iterator::any$|ParallelIterator::any$")
+            eq_in_closure = False
+            for (bi, t) in anyc:
+                for x in t["args"][1:]:
+                    pl = op_place(x)
+                    for (b2, si, it) in (f.defs().get(pl[0], []) if pl else []):
+                        if si != "t" and it["rv"].get("k") == "agg" and it["rv"].get("agg") == "closure":
+                            for cb in c0.get_all(it["rv"]["closure"]):
+                                g = Fn(cb)
+                                ce = [c for c in rules.comparisons(g) if c["op"] == "Eq"]
+                                eq_in_closure = eq_in_closure or (len(ce) == 1 and has_call_origin(g.origins(0, deep=True), r"PartialEq::eq$") or (len(ce) == 1 and ce[0].get("res") is not None))
+            ok = bool(srt) and ret_any and eq_in_closure and all(f.dominates(srt[0][0], wb) for (wb, _) in win)
+        ck.ob("RET", f.path, "adjacent-equal-returns-true", ok,
+              "idiom %s: after sorting, every adjacent pair is compared and an equal pair makes the function return true" % idiom if ok else
+              "no complete adjacent-pair comparison recognised (idiom: %s, sorts: %d, equality tests: %d, windows(2): %d)" % (idiom, len(srt), len(comps), len(win)), f.loc())
         # every message takes part: the hashes are mapped over the whole argument
         o = f.origins(srt[0][1]["args"][0], deep=True) if srt else set()
         ck.ob("COV", f.path, "all-messages", ("arg", 1) in o, "the sorted vector derives from all input messages", f.loc())
